@@ -7,19 +7,83 @@ From PcoreV Require Model.Coll Proofs.CollProofsKeyed Proofs.CollProofsEq Proofs
 From PcoreV Require Model.Keys Model.CollKey Proofs.CollKeyProofs.
 Import ListNotations.
 
-(* The mutable string-keyed hash (model of hash/stringhash.go, with its index map explicit) behaves,
-   for EVERY history of operations over any number of hashes, exactly like the abstract
+(* The mutable string-keyed hash (model of hash/stringhash.go, with its index map and the capacity of its entries
+   array explicit) behaves, for EVERY history of operations over any number of hashes, exactly like the abstract
    insertion-ordered map: same result of every operation, query or mutation.  The operations include
    ComputeIfAbsent with a mapping function that returns a value, one that panics (the caller recovers: nothing
-   may have changed) and one that re-enters the hash (it puts another key, then returns).
+   may have changed) and one that re-enters the hash (it puts another key, then returns), and the five iterations
+   (EachKey, EachPair, EachValue, AllPair, AnyPair) with a callback that RE-ENTERS the hash it is called from: at each
+   call it may Delete, Put or ComputeIfAbsent any key.
    ops_ok: a re-entrant mapping function puts a key OTHER than the one being computed; without that guard the
-   statement is false of the model and of the code (open finding compute-producer-puts-same-key, refuted below). *)
+   statement is false of the model and of the code (open finding compute-producer-puts-same-key, refuted below).
+   ops_plain: the callbacks of the iterations delete, compute or do nothing; for callbacks that also PUT see
+   C09_stringhash_refines_reentrant. *)
 Definition C09_stringhash_statement : Prop :=
   forall ops : list op, snd (run [] ops) = snd (s_run [] ops).
 Theorem C09_stringhash_refines :
-  forall ops : list op, ops_ok ops = true -> snd (run [] ops) = snd (s_run [] ops).
+  forall ops : list op, ops_ok ops = true -> ops_plain ops = true -> snd (run [] ops) = snd (s_run [] ops).
 Proof. exact stringhash_refines. Qed.
 Print Assumptions C09_stringhash_refines.
+
+(* Callbacks that put as well: every result of every operation is still the abstract map's - the keys each
+   iteration hands out, how many, the result of AllPair / AnyPair, the map afterwards and so every later answer -
+   except that nothing is claimed about the VALUES an iteration hands to its callback (erase_values forgets them):
+   a value the callback puts for an entry still to come is or is not the one handed out later, depending on whether
+   the entries still live in the array the iteration started on (C09_iteration_values_depend_on_capacity). *)
+Theorem C09_stringhash_refines_reentrant :
+  forall ops : list op, ops_ok ops = true ->
+    map erase_values (snd (run [] ops)) = map erase_values (snd (s_run [] ops)).
+Proof. exact stringhash_refines_reentrant. Qed.
+Print Assumptions C09_stringhash_refines_reentrant.
+
+(* What the abstract iteration is (so that the refinement says what the property says).  An iteration that was not
+   left by a panic has handed out, in order and once each, the entries the map held WHEN IT STARTED - all of them,
+   or the first m when AllPair / AnyPair was stopped - whatever its callback deleted or added meanwhile ... *)
+Theorem C09_iteration_visits_entries_present_at_start :
+  forall kind h acts h' ks vs b, s_iterate kind h acts = (h', RIter ks vs b) ->
+    exists m st, RIter ks vs b = iter_out kind (firstn m (sents h)) st /\
+                 (m <= length (sents h))%nat /\ (st = false -> m = length (sents h)).
+Proof. exact s_iterate_visits_start_entries. Qed.
+Print Assumptions C09_iteration_visits_entries_present_at_start.
+
+Theorem C09_each_visits_every_entry_present_at_start :
+  forall kind h acts h' ks vs b, stops kind true = false ->
+    s_iterate kind h acts = (h', RIter ks vs b) -> RIter ks vs b = iter_out kind (sents h) false.
+Proof. exact s_each_visits_all. Qed.
+Print Assumptions C09_each_visits_every_entry_present_at_start.
+
+(* ... and deletion from inside the callback keeps every other entry reachable: a key that no call of the callback
+   deletes answers after the iteration as it did before (however the iteration ended). *)
+Theorem C09_delete_during_iteration_keeps_others :
+  forall kind h acts k', forallb (fun a => act_spares k' (fst a)) acts = true ->
+    s_lookup (sents (fst (s_iterate kind h acts))) k' = s_lookup (sents h) k'.
+Proof. exact s_iterate_delete_keeps_others. Qed.
+Print Assumptions C09_delete_during_iteration_keeps_others.
+
+(* The same history on a hash made with capacity 4 and with capacity 3: the callback appends a key at its first
+   call (the entries move to a larger array only in the second hash) and puts c => 9 at its second; the iteration
+   of the first hash then hands out c => 9, that of the second c => 3.  Both hashes hold c => 9 afterwards. *)
+Example C09_iteration_values_depend_on_capacity :
+  let h c := [ONewCap c; OPut 0 [97]%N 1; OPut 0 [98]%N 2; OPut 0 [99]%N 3;
+              OIter 0 IEachPair [(ACompute [100]%N 5, false); (APut [99]%N 9, false)]; OGet 0 [99]%N] in
+  nth 4 (snd (run [] (h 4%nat))) RUnit = RIter [[97]%N; [98]%N; [99]%N] [1; 2; 9]%Z true /\
+  nth 4 (snd (run [] (h 3%nat))) RUnit = RIter [[97]%N; [98]%N; [99]%N] [1; 2; 3]%Z true /\
+  nth 5 (snd (run [] (h 4%nat))) RUnit = RVal (Some 9%Z) /\ nth 5 (snd (run [] (h 3%nat))) RUnit = RVal (Some 9%Z).
+Proof. vm_compute. auto. Qed.
+
+(* Non-vacuity of the iteration theorems: "remove every visited key" visits a, b, c, d and leaves the hash empty;
+   removing the entry that follows the visited one still visits it. *)
+Example C09_iteration_nonvacuous :
+  let ops := [ONew; OPut 0 [97]%N 1; OPut 0 [98]%N 2; OPut 0 [99]%N 3; OPut 0 [100]%N 4;
+              OIter 0 IEachKey [(ADel [97]%N, false); (ADel [98]%N, false); (ADel [99]%N, false); (ADel [100]%N, false)];
+              OLen 0; OPut 0 [97]%N 1; OPut 0 [98]%N 2; OPut 0 [99]%N 3;
+              OIter 0 IAllPair [(ADel [98]%N, false); (ANone, false); (ANone, true)]; OPairs 0] in
+  ops_ok ops = true /\ ops_plain ops = true /\
+  snd (run [] ops) =
+    [RObj 0; RPut None false; RPut None false; RPut None false; RPut None false;
+     RIter [[97]%N; [98]%N; [99]%N; [100]%N] [] true; RInt 0; RPut None false; RPut None false; RPut None false;
+     RIter [[97]%N; [98]%N; [99]%N] [1; 2; 3]%Z false; RPairs [([97]%N, 1%Z); ([99]%N, 3%Z)]].
+Proof. vm_compute. auto. Qed.
 
 Theorem C09_compute_producer_puts_same_key_refuted :
   exists ops, ops_ok ops = false /\
